@@ -504,11 +504,24 @@ def inject_reunit(rng, spec, ops, k=None):
         ops.insert(at, {'op': 'reunit', 'obj': oi, 'attr': attr, 'unit': rng.choice(list(SI[kind].keys()))})
 
 
+def redeclarable(spec):
+    """indices of the gear matings that can be declared again without changing anybody's role or mate: neither gear
+    takes part in a later mating (an idler's role and mate are those of the mating declared last)"""
+    out = []
+    for k, r in enumerate(spec['rels']):
+        if r[0] != 'gear':
+            continue
+        later = [q for q in spec['rels'][k + 1:] if q[0] in ('gear', 'worm') and (set(q[1:3]) & set(r[1:3]))]
+        if not later:
+            out.append(k)
+    return out
+
+
 def inject_redeclare(rng, spec, ops):
     """the relation of one gear pair is declared again after the Powertrain and the Solver exist (an efficiency
     sweep, or a pair first joined rigidly and then mated): same elements, new efficiency / ratio / roles.
     Changes the spec's initial declaration and inserts the `redeclare` op into `ops`; returns True if done."""
-    gears = [k for k, r in enumerate(spec['rels']) if r[0] == 'gear']
+    gears = redeclarable(spec)
     if not gears:
         return False
     k = rng.choice(gears)
